@@ -98,7 +98,9 @@ func (h *verifHandler) HandleOpenFile(ctx *Context[verifState], path string) (fs
 	h.info = h.newInfo("e")
 	return h.info, nil
 }
-func (h *verifHandler) HandleCloseFile(ctx *Context[verifState]) { h.calls = append(h.calls, "closefile") }
+func (h *verifHandler) HandleCloseFile(ctx *Context[verifState]) {
+	h.calls = append(h.calls, "closefile")
+}
 func (h *verifHandler) HandleReadFile(ctx *Context[verifState], limit uint32, offset uint64, w ReadFileResponseWriter) error {
 	h.calls, h.limit, h.offset = append(h.calls, "readfile"), limit, offset
 	if verifrt.Bool("read.fails-before-header") {
